@@ -228,6 +228,61 @@ c18_contiguous!(c18_t_contiguous_round_s31, 5, 0);
 #[cfg(feature = "thorough")]
 c18_confine!(c18_t_confine_s31, 5);
 
+/// seen-at-q of a points() iterator (concrete trip count for listed shapes)
+fn seen_at<I: Iterator<Item = Point>>(it: I, q: Point) -> (bool, u32) {
+    let mut seen = false;
+    let mut n = 0u32;
+    for p in it {
+        if p == q { seen = true; }
+        n += 1;
+    }
+    (seen, n)
+}
+
+/// the equivalences also hold for what is ENUMERATED and DRAWN, not only for contains(): listed
+/// shapes (incl. flat and narrow even ones), symbolic probe. circle == ellipse with equal axes,
+/// rounded rectangle with half-side radii == ellipse (even sides), zero radii == rectangle
+#[cfg_attr(kani, kani::proof, kani::unwind(40))]
+pub fn c18_q_g_points_equivalences() {
+    let q = point(5);
+    note!("q", q);
+    let mut d = 0u32;
+    while d <= 5 {
+        let tl = if d % 2 == 0 { Point::new(0, 0) } else { Point::new(-3, -2) };
+        let a = seen_at(Circle::new(tl, d).points(), q);
+        let b = seen_at(Ellipse::new(tl, Size::new(d, d)).points(), q);
+        note!("diameter", d);
+        check!(a == b, "C18.circle_points_eq_ellipse_points");
+        d += 1;
+    }
+    macro_rules! rr_eq_ellipse {
+        ($w:expr, $h:expr, $tl:expr) => {{
+            let r = Rectangle::new($tl, Size::new($w, $h));
+            let rr = RoundedRectangle::with_equal_corners(r, Size::new($w / 2, $h / 2));
+            let e = Ellipse::new($tl, Size::new($w, $h));
+            note!("size", ($w, $h));
+            check!(seen_at(rr.points(), q) == seen_at(e.points(), q), "C18.rr_points_eq_ellipse_points");
+            // drawn (filled) on the native target: same pixel at q
+            let big = Rectangle::new(Point::new(-1000, -1000), Size::new(2000, 2000));
+            let st = PrimitiveStyle::with_fill(Gray8::new(7));
+            let mut t1 = NProbe::<Gray8>::new(q, big);
+            let mut t2 = NProbe::<Gray8>::new(q, big);
+            rr.into_styled(st).draw(&mut t1).unwrap();
+            e.into_styled(st).draw(&mut t2).unwrap();
+            check!(t1.last == t2.last, "C18.rr_fill_eq_ellipse_fill");
+        }};
+    }
+    rr_eq_ellipse!(8, 2, Point::new(0, 0));
+    rr_eq_ellipse!(2, 8, Point::new(-3, -2));
+    rr_eq_ellipse!(6, 4, Point::new(-3, -2));
+    rr_eq_ellipse!(4, 4, Point::new(0, 0));
+    rr_eq_ellipse!(10, 2, Point::new(-3, -2));
+    let r = Rectangle::new(Point::new(-3, -2), Size::new(5, 3));
+    check!(seen_at(RoundedRectangle::with_equal_corners(r, Size::zero()).points(), q) == seen_at(r.points(), q), "C18.rr_zero_radii_points_eq_rectangle");
+    reach!(true, "reach.end");
+}
+
+
 /// Self-test: pinned circle sizes from the repository's tests (tiny circles), concrete.
 #[cfg_attr(kani, kani::proof, kani::unwind(6))]
 pub fn c18_q_selftest() {
